@@ -115,6 +115,7 @@ type Assertion struct {
 	Version       *string
 	IssueInstant  *string
 	Issuer        *string
+	IssuerFormat  *string // nil = the entity format; "" = no Format attribute
 	NoSubject     bool
 	NameID        *string
 	Confirmations []Confirmation
@@ -139,6 +140,7 @@ type Response struct {
 	IssueInstant *string
 	Destination  *string
 	Issuer       *string
+	IssuerFormat *string // nil = the entity format; "" = no Format attribute
 	NoStatus     bool
 	NoStatusCode bool
 	StatusCode   *string // nil = attribute absent
@@ -197,7 +199,7 @@ func (a *Assertion) Element() *etree.Element {
 	setOpt(el, "Version", a.Version)
 	if a.Issuer != nil {
 		is := el.CreateElement("saml:Issuer")
-		is.CreateAttr("Format", "urn:oasis:names:tc:SAML:2.0:nameid-format:entity")
+		issuerFormat(is, a.IssuerFormat)
 		is.SetText(*a.Issuer)
 	}
 	if !a.NoSubject {
@@ -293,7 +295,7 @@ func (r *Response) Element() *etree.Element {
 	setOpt(el, "InResponseTo", r.InResponseTo)
 	if r.Issuer != nil {
 		is := el.CreateElement("saml:Issuer")
-		is.CreateAttr("Format", "urn:oasis:names:tc:SAML:2.0:nameid-format:entity")
+		issuerFormat(is, r.IssuerFormat)
 		is.SetText(*r.Issuer)
 	}
 	if !r.NoStatus {
@@ -372,4 +374,13 @@ func Parse(b []byte) *etree.Element {
 		panic(err)
 	}
 	return doc.Root()
+}
+
+func issuerFormat(is *etree.Element, f *string) {
+	switch {
+	case f == nil:
+		is.CreateAttr("Format", "urn:oasis:names:tc:SAML:2.0:nameid-format:entity")
+	case *f != "":
+		is.CreateAttr("Format", *f)
+	}
 }
